@@ -137,6 +137,9 @@ def build(tier, rng):
     from passlib import hash as H
     from passlib import registry
 
+    import logging
+
+    logging.disable(logging.WARNING)  # scram logs a warning for the unknown digest name used as a refusal witness
     uh.rng = random.Random(rng.getrandbits(64))  # library salts / vary draws follow the harness seed
     thorough = tier != "quick"
     skipped = []
@@ -454,7 +457,7 @@ def build(tier, rng):
                 g.case(("scram", "algs", repr(algs)))
                 g.check(list(child.default_algs) == want and sorted(s.parse(child, hs).algs) == want, "algs:scram", "hash does not carry the configured algorithms", {"algs": algs, "hash": hs})
                 g.check(child.needs_update(hs) is False, "fresh-flagged:scram", "own fresh hash flagged", {"algs": algs})
-            for bad in (["sha-256"], "sha-256,sha-512", ["sha-1", "sha3-256-long-name"]):
+            for bad in (["sha-256"], "sha-256,sha-512", ["sha-1", "sha512-256"]):
                 refused(g, s, "algs-refusal:scram", "algorithm list without sha-1 / with an over-long name accepted", algs=bad)
             frame(g, s, "algs")
     for s in subjects:
